@@ -184,6 +184,7 @@ def run_check(pid, tier, seed, replay=None, nworkers=None, verbose=True):
             rcase = dict(r['case'])
             if r.get('spec') is not None:
                 rcase['spec'] = r['spec']       # replay exactly this model even if the generators change later
+            rcase.update(r.get('case_extra') or {})
             json.dump({'property': pid, 'seed': seed, 'tier': tier, 'case': rcase, 'result': {k: v for k, v in r.items() if k != 'case'}},
                       f, indent=1, default=str)
         replay_paths.append(path)
